@@ -486,6 +486,18 @@ impl Defects {
 /// Reference outcome of executing the (already decoded, implemented) instruction `row`/`f`
 /// of encoded length `len` located at `i.pc`.
 pub fn exec<M: MemRead>(row: usize, f: &Fields, len: usize, i: &RefIn, mem: &M, d: &Defects) -> RefOut {
+    let mut o = exec_inner(row, f, len, i, mem, d);
+    // a store into a port DDR/DR register has peripheral side effects (other bytes change, messages):
+    // that is C16's subject, left open everywhere else
+    if o.writes.as_slice().iter().any(|w| is_port_reg(w.addr)) {
+        o.class = Class::Any;
+        o.mem_open = true;
+        o.note = "store into a port DDR/DR register (C16)";
+    }
+    o
+}
+
+fn exec_inner<M: MemRead>(row: usize, f: &Fields, len: usize, i: &RefIn, mem: &M, d: &Defects) -> RefOut {
     let sem = ROWS[row].sem;
     let mut o = RefOut::start(i);
     // instruction fetch must lie inside the map
